@@ -11,15 +11,15 @@ import (
 // TNode is one line of CLUSTER NODES.
 type TNode struct {
 	ID       string   `json:"id"`
-	Node     int      `json:"node"`             // index of the fake node whose address is advertised (-1: use Addr)
-	Addr     string   `json:"addr,omitempty"`   // explicit address when Node < 0
-	Master   bool     `json:"master"`           // role flag
-	MasterID string   `json:"master_id"`        // "-" for masters
-	Flags    []string `json:"flags,omitempty"`  // extra flags: fail, fail?, handshake, noaddr, nofailover
-	LinkDown bool     `json:"link_down"`        // link-state column "disconnected"
-	Slots    [][2]int `json:"slots,omitempty"`  // inclusive ranges (masters)
-	Marks    []string `json:"marks,omitempty"`  // migration markers like [93-<-id]
-	Short    bool     `json:"short,omitempty"`  // render with fewer than 8 columns
+	Node     int      `json:"node"`            // index of the fake node whose address is advertised (-1: use Addr)
+	Addr     string   `json:"addr,omitempty"`  // explicit address when Node < 0
+	Master   bool     `json:"master"`          // role flag
+	MasterID string   `json:"master_id"`       // "-" for masters
+	Flags    []string `json:"flags,omitempty"` // extra flags: fail, fail?, handshake, noaddr, nofailover
+	LinkDown bool     `json:"link_down"`       // link-state column "disconnected"
+	Slots    [][2]int `json:"slots,omitempty"` // inclusive ranges (masters)
+	Marks    []string `json:"marks,omitempty"` // migration markers like [93-<-id]
+	Short    bool     `json:"short,omitempty"` // render with fewer than 8 columns
 }
 
 // Topo is a cluster description that is rendered as CLUSTER NODES text and from which the expected
@@ -105,7 +105,9 @@ func (t *Topo) Render(c *Cluster, viewer int) string {
 }
 
 // Reply renders the RESP bulk reply for viewer.
-func (t *Topo) Reply(c *Cluster, viewer int) []byte { return refmodel.Bulk([]byte(t.Render(c, viewer))) }
+func (t *Topo) Reply(c *Cluster, viewer int) []byte {
+	return refmodel.Bulk([]byte(t.Render(c, viewer)))
+}
 
 // Install makes every node of c answer CLUSTER NODES with this topology and sets INFO roles.
 func (t *Topo) Install(c *Cluster) {
